@@ -33,12 +33,36 @@ pub struct ExAttributeError(AttributeError);
 pub struct ExParsedUpdate(ParsedUpdate);
 
 #[verifier::external_type_specification]
-#[verifier::external_body]
 pub struct ExOpen(Open);
 
 #[verifier::external_type_specification]
 #[verifier::external_body]
+pub struct ExHoldTime(HoldTime);
+
+#[verifier::external_type_specification]
+pub struct ExCapability(Capability);
+
+#[verifier::external_type_specification]
 pub struct ExNotification(Notification);
+
+#[verifier::external_type_specification]
+pub struct ExParsedMessage(ParsedMessage);
+
+#[verifier::external_type_specification]
+#[verifier::external_body]
+pub struct ExFnvHasher(fnv::FnvHasher);
+
+#[verifier::external_type_specification]
+#[verifier::external_body]
+#[verifier::reject_recursive_types_in_ground_variants(H)]
+pub struct ExBuildHasherDefault<H>(core::hash::BuildHasherDefault<H>);
+
+pub broadcast axiom fn axiom_family_obeys_key_model()
+    ensures #[trigger] vstd::std_specs::hash::obeys_key_model::<Family>(),
+;
+pub broadcast axiom fn axiom_fnv_builds_valid_hashers()
+    ensures #[trigger] vstd::std_specs::hash::builds_valid_hashers::<core::hash::BuildHasherDefault<fnv::FnvHasher>>(),
+;
 
 #[verifier::external_type_specification]
 pub struct ExUpdate(Update);
